@@ -493,7 +493,8 @@ def e_morphology(inp):
     from photutils.morphology import data_properties, gini
     d, m, _ = _cut(inp)
     p = data_properties(d, mask=m)
-    return [gini(d, mask=m), p.xcentroid, p.ycentroid, p.semimajor_sigma, p.orientation]
+    whole = inp['data']
+    return [gini(d, mask=m), gini(whole), gini(whole, mask=inp.get('mask')), p.xcentroid, p.ycentroid, p.semimajor_sigma, p.orientation]
 
 
 def e_image_depth(inp):
